@@ -1,6 +1,6 @@
 from algo_prop import make
-ALGOS = ["T_HOO", "HCT", "VHCT"]
-budget, explore, search, replay = make("C04", ALGOS, salt=400)
+ALGOS = ["T_HOO", "HCT", "VHCT", "SOO", "DOO", "StoSOO", "SequOOL", "Zooming", "POO", "GPO"]
+budget, explore, search, replay = make("C04", ALGOS, quick_per_algo=6, thorough_per_algo=80, salt=400)
 RULE = ("the documented pull/receive loop on the real classes: algorithm x partition class (K 2..5) x dimension 1..3 x box shape x "
         "parameters from the documented ranges x ten reward modes (dyadic noise, all-negative, zero, constant, few-valued ties, "
         "alternating sign, large, objective+noise) x five split-fraction modes, 20..150 rounds, time labels t0+i, recommendation "
